@@ -63,19 +63,39 @@ func (r *verifC06Recorder) Checkpoint(data []byte) error {
 
 func (r *verifC06Recorder) EnsureBefore(d time.Duration) { r.real.EnsureBefore(d) }
 
-func TestVerifC06(t *testing.T) {
-	runtime.LockOSThread()
+// The scenario runs inside init(): package initialisation runs on the main
+// goroutine, which the runtime keeps on the initial OS thread, and
+// LockOSThread in init keeps it there. All syscalls before and during the
+// checkpoint are therefore issued by one thread in a reproducible order, which
+// is what strace's per-thread `when=k` fault injection needs. (Inside a Test
+// function the goroutine may have hopped threads before it could lock.)
+func init() {
 	fn := os.Getenv("VERIF_C06_SCENARIO")
 	if fn == "" {
-		t.Skip("no scenario")
+		return
 	}
+	runtime.LockOSThread()
+	if err := verifC06Run(fn); err != nil {
+		fmt.Fprintf(os.Stderr, "verif C06 backend driver: %v\n", err)
+		os.Exit(2)
+	}
+	os.Exit(0)
+}
+
+// TestVerifC06 exists so that the file is an ordinary in-package test; the
+// traced runs never get here (see init above).
+func TestVerifC06(t *testing.T) {
+	t.Skip("driven through init() with VERIF_C06_SCENARIO set")
+}
+
+func verifC06Run(fn string) error {
 	b, err := os.ReadFile(fn)
 	if err != nil {
-		t.Fatal(err)
+		return err
 	}
 	var sc verifC06Scenario
 	if err := json.Unmarshal(b, &sc); err != nil {
-		t.Fatal(err)
+		return err
 	}
 	real := &overlordStateBackend{path: sc.Path, ensureBefore: func(time.Duration) {}}
 	rec := &verifC06Recorder{real: real}
@@ -84,7 +104,7 @@ func TestVerifC06(t *testing.T) {
 		for _, d64 := range sc.DataB64 {
 			data, err := base64.StdEncoding.DecodeString(d64)
 			if err != nil {
-				t.Fatal(err)
+				return err
 			}
 			rec.Checkpoint(data) // errors are reported through the END marker
 		}
@@ -96,11 +116,12 @@ func TestVerifC06(t *testing.T) {
 			st.Set(k, sc.Values[i])
 			if i%2 == 1 {
 				chg := st.NewChange("verif-c06", "change "+k)
-				chg.AddTask(st.NewTask("verif-c06-task", sc.Values[i]))
+				chg.AddTask(st.NewTask("verif-c06-task", "task of "+k))
 			}
 			st.Unlock() // real Unlock: checkpointData + backend.Checkpoint (+ retries)
 		}
 	default:
-		t.Fatalf("unknown mode %q", sc.Mode)
+		return fmt.Errorf("unknown mode %q", sc.Mode)
 	}
+	return nil
 }
